@@ -41,6 +41,8 @@
  *                            (tickit_term_new_for_termtype) starts observing SIGWINCH: tickit_term_observe_sigwinch(tt0, true);
  *                            it keeps observing until the process ends, so the observer list of term.c is never empty
  *                            afterwards and tickit_term_observe_sigwinch never touches the SIGWINCH handler again
+ *   new [Cnn] blk=s1,s2      (default hooks only) the application has the signals s1, s2 blocked in its own signal mask
+ *                            (sigprocmask(SIG_BLOCK) before tickit_build), as a threaded program that blocks signals in main does
  *   obs 0|1                  tickit_term_observe_sigwinch(tt1, 0|1) on a second stand-alone terminal (made on first use);
  *                            only in a `tt` history
  *   end                      leak check
@@ -455,6 +457,17 @@ static void engine_op(int argc, char **argv)
     cur = 0;
     for(int i = 1; i < argc; i++) if(strcmp(argv[i], "fb") == 0) fbmode = 1;
     for(int i = 1; i < argc; i++) if(strcmp(argv[i], "tt") == 0 && !fbmode) ttmode = 1;
+    /* `blk=s1,s2`: the application has these signals blocked in its own mask when the instance is built */
+    for(int i = 1; i < argc; i++) if(strncmp(argv[i], "blk=", 4) == 0 && !fbmode) {
+      sigset_t set;
+      sigemptyset(&set);
+      const char *p = argv[i] + 3;
+      while(*p == '=' || *p == ',') {
+        long sg = strtol(p + 1, (char **)&p, 10);
+        if(valid_sig((int)sg)) sigaddset(&set, (int)sg);
+      }
+      sigprocmask(SIG_BLOCK, &set, NULL);
+    }
     if(ttmode) {
       quiet = 1;
       XT[0] = tickit_term_new_for_termtype("xterm");
